@@ -174,6 +174,23 @@ def run(ctx):
     # ---- I-SCRATCH: a per-node scratch matrix (psiBarOmega: the polynomials WITHOUT node i) is written by one method and read by
     #      another one that is called for the same node.  Where a function calls both for the loop's node, the reader is reached on
     #      no path of the iteration that skipped the writer (the reader would use the scratch values of the previous node)
+    # ---- I-SWEEPALL: the closed-form psiOmega is built from the dummy memberships of ALL N rows; the initial sweep replaces the dummy row of
+    #      every node - isolated ones included (their row goes to zero through the same incremental update) - so it ranges over all N nodes
+    with res.guard("I-SWEEPALL"):
+        res.rules["I-SWEEPALL"] = "the initial update of u / psiOmega sweeps all N nodes (the dummy contribution of the isolated nodes is removed by the same incremental update), never the non-isolated ones only"
+        if "_initial_update_u_psi" in ctx.methods("HypergraphMT"):
+            iv = ctx.view("HypergraphMT._initial_update_u_psi")
+            lps_ = [l for l in walk_no_nested(iv.fi.node) if isinstance(l, ast.For) and any(isinstance(c, ast.Call) and isinstance(c.func, ast.Attribute) and c.func.attr == "_update_psiOmega" for c in ast.walk(l))]
+            if not lps_:
+                res.unknown("I-SWEEPALL", iv.fi.short, "for i in range(self.N)", "all-nodes", "the sweep that calls _update_psiOmega was not recognised", loc(iv.fi, iv.fi.node))
+            for l in lps_:
+                it_ = norm(iv.inline(l.iter, depth=2))
+                if "non_isolates" in it_:
+                    res.violation("I-SWEEPALL", iv.fi.short, f"for {norm(l.target)} in {norm(l.iter)[:40]}", "all-nodes", f"the initial sweep ranges over `{norm(l.iter)[:30]}`: the isolated nodes keep their dummy contribution in psiOmega (it was built from all N rows), so every later normalisation term - and the reported log-likelihood - is off", loc(iv.fi, l))
+                elif it_ in ("range(self.N)", "range(0, self.N)") or "self.N" in it_:
+                    res.ok("I-SWEEPALL", iv.fi.short, f"for {norm(l.target)} in {norm(l.iter)[:40]}", "all-nodes", loc(iv.fi, l))
+                else:
+                    res.unknown("I-SWEEPALL", iv.fi.short, f"for {norm(l.target)} in {norm(l.iter)[:40]}", "all-nodes", "the population of the initial sweep was not recognised", loc(iv.fi, l))
     with res.guard("I-SCRATCH"):
         res.rules["I-SCRATCH"] = "a per-node scratch matrix is recomputed for the node on every path of the iteration that reaches the method reading it (never left at the previous node's values on one branch)"
         n_pairs = 0
